@@ -370,6 +370,9 @@ def install_packets(R):
                at_calls={'packets_data.append': [
                    'len(self.data) >= 6',
                    'self.data[0] == pack2v(ite(self.multicast, 0, self.id))',
+                   # TC only on queries that continue; never on responses
+                   'self.data[1] == pack2v(ite(has_more_to_add and mod(div(self.flags, 32768), 2) == 0, '
+                   '                           self.flags + 512 * (1 - mod(div(self.flags, 512), 2)), self.flags))',
                    'self.data[2] == pack2v(questions_written) and self.data[3] == pack2v(answers_written) '
                    'and self.data[4] == pack2v(authorities_written) and self.data[5] == pack2v(additionals_written)',
                    'ghost: G.append((questions_offset - questions_written, questions_written, answer_offset - answers_written, answers_written, '
@@ -400,3 +403,134 @@ def install_packets(R):
                    'forall("p:int", lambda p: implies(%s <= p and p + 1 < len(G), G[p][10] == 1))' % g0,
                ])
     R.spec('pack2v', [('v', 'int')], 'bytes', lambda ex, st, v: Sc(pack2(ex.num(v, st)[0]), BYTES))
+
+
+# ---- concrete harness ------------------------------------------------------------------------------------------
+def _mk_out(g, big=False):
+    from zeroconf._protocol.outgoing import DNSOutgoing
+    from zeroconf._dns import DNSText, DNSQuestion
+    from zeroconf import const as c
+    r = g.rng
+    flags = r.choice([0, 0x8400, 0x0400, 0x8000, 0x0200])
+    out = DNSOutgoing(flags, r.random() < 0.6, r.choice([0, 1, 0x1234]))
+    for _ in range(r.randint(0, 3)):
+        out.add_question(g.question())
+    for _ in range(r.randint(0, 3)):
+        out.add_answer_at_time(g.record(), r.choice([0, 0, 1000.0]))
+    for _ in range(r.randint(0, 2)):
+        out.add_authorative_answer(g.record(['PTR']))
+    for _ in range(r.randint(0, 2)):
+        out.add_additional_answer(g.record())
+    if big or r.random() < 0.35:
+        n = r.choice([1300, 1500, 5000, 8900, 9100])
+        rec = DNSText(r.choice(['big.local.', 'a.local.']), c._TYPE_TXT, c._CLASS_IN, 120, b'x' * n, 1000.0)
+        where = r.choice(['answers', 'additionals', 'first'])
+        if where == 'first':
+            out.answers.insert(0, (rec, 0))
+        elif where == 'answers':
+            out.answers.append((rec, 0))
+        else:
+            out.additionals.append(rec)
+    return out
+
+
+def _partially_written(g):
+    """a builder in the middle of a packet: some entries already written by the real code"""
+    out = _mk_out(g)
+    for q in out.questions[: g.rng.randint(0, 2)]:
+        out._write_question(q)
+    if g.rng.random() < 0.5:
+        for a, t in out.answers[:1]:
+            out._write_record(a, t)
+    return out
+
+
+def _g_self_only(g):
+    return {'self': _partially_written(g)}
+
+
+def install_generators(R):
+    def gen_with(**fixed):
+        def f(g):
+            d = {'self': _partially_written(g)}
+            for k, v in fixed.items():
+                d[k] = v(g)
+            return d
+        return f
+    names = ['a.local.', 'A.local.', 'inst._x._tcp.local.', 'x' * 64 + '.local.', 'x' * 65 + '.local.', 'local.', 'é.local.']
+    G = R.generators
+    G[(M, 'DNSOutgoing._write_byte')] = gen_with(value=lambda g: g.rng.choice([0, 1, 255, 256, -1, -256, -257, 192]))
+    G[(M, 'DNSOutgoing._get_short')] = gen_with(value=lambda g: g.rng.choice([0, 1, 127, 128, 65535, 65536, -1, -128, -129]))
+    G[(M, 'DNSOutgoing.write_short')] = gen_with(value=lambda g: g.rng.choice([0, 1, 127, 128, 65535, 65536, -1, -128, -129]))
+    G[(M, 'DNSOutgoing._write_int')] = gen_with(value=lambda g: g.rng.choice([0, 120, 4500, 1, 0.5, -0.5, -1, 4294967295, 4294967296, 77.9]))
+    G[(M, 'DNSOutgoing.write_string')] = gen_with(value=lambda g: g.rng.choice([b'', b'abc', b'x' * 300]))
+    G[(M, 'DNSOutgoing._write_utf')] = gen_with(s=lambda g: g.rng.choice(['', 'a', 'x' * 63, 'x' * 64, 'x' * 65, 'é' * 32, 'é' * 33]))
+    G[(M, 'DNSOutgoing.write_character_string')] = gen_with(value=lambda g: g.rng.choice([b'', b'a', b'x' * 255, b'x' * 256, b'x' * 257]))
+    G[(M, 'DNSOutgoing._write_link_to_name')] = gen_with(index=lambda g: g.rng.choice([12, 13, 255, 256, 16383, 16384, 20000]))
+    G[(M, 'DNSOutgoing.write_name')] = gen_with(name=lambda g: g.rng.choice(names))
+    G[(M, 'DNSOutgoing._write_record_class')] = gen_with(record=lambda g: g.record())
+    G[(M, 'DNSOutgoing._write_ttl')] = gen_with(record=lambda g: g.record(), now=lambda g: g.rng.choice([0, 0.0, 1000.0, 500000.0]))
+    G[(M, 'DNSOutgoing._write_question')] = gen_with(question=lambda g: g.question())
+    G[(M, 'DNSOutgoing._write_record')] = gen_with(record=lambda g: g.record(), now=lambda g: g.rng.choice([0, 1000.0]))
+    G[(M, 'DNSOutgoing._replace_short')] = lambda g: _gen_replace(g)
+    G[(M, 'DNSOutgoing._insert_short_at_start')] = gen_with(value=lambda g: g.rng.choice([0, 5, 65535, 65536, -1]))
+    G[(M, 'DNSOutgoing._check_data_limit_or_rollback')] = _gen_rollback
+    G[(M, 'DNSOutgoing._write_questions_from_offset')] = lambda g: {'self': _fresh_or_partial(g), 'questions_offset': g.rng.randint(0, 3)}
+    G[(M, 'DNSOutgoing._write_answers_from_offset')] = lambda g: {'self': _fresh_or_partial(g), 'answer_offset': g.rng.randint(0, 3)}
+    G[(M, 'DNSOutgoing._write_records_from_offset')] = _gen_records_from
+    G[(M, 'DNSOutgoing._has_more_to_add')] = lambda g: dict(self=_mk_out(g), questions_offset=g.rng.randint(0, 3), answer_offset=g.rng.randint(0, 4),
+                                                           authority_offset=g.rng.randint(0, 2), additional_offset=g.rng.randint(0, 3))
+    G[(M, 'DNSOutgoing._reset_for_next_packet')] = _g_self_only
+    G[(M, 'DNSOutgoing.is_query')] = lambda g: {'self': _mk_out(g)}
+    G[(M, 'DNSOutgoing.packets')] = _gen_packets
+    for cls in ('DNSAddress', 'DNSText', 'DNSPointer', 'DNSHinfo', 'DNSService', 'DNSNsec'):
+        kinds = {'DNSAddress': ['A', 'AAAA'], 'DNSText': ['TXT'], 'DNSPointer': ['PTR'], 'DNSHinfo': ['HINFO'],
+                 'DNSService': ['SRV'], 'DNSNsec': ['NSEC']}[cls]
+        G[('zeroconf._dns', cls + '.write')] = (lambda kinds: lambda g: {'self': g.record(kinds), 'out': _partially_written(g)})(kinds)
+
+
+def _fresh_or_partial(g):
+    return _mk_out(g) if g.rng.random() < 0.6 else _partially_written(g)
+
+
+def _gen_replace(g):
+    out = _partially_written(g)
+    out.write_short(0)
+    idx = len(out.data) - 1
+    out.write_string(b'abc')
+    return {'self': out, 'index': idx, 'value': g.rng.choice([0, 3, 65535, 65536])}
+
+
+def _gen_rollback(g):
+    out = _partially_written(g)
+    sdl, ss = len(out.data), out.size
+    out.allow_long = g.rng.random() < 0.5
+    if g.rng.random() < 0.8:
+        out.write_name(g.rng.choice(['a.local.', 'q.x.local.']))
+        out.write_string(b'y' * g.rng.choice([1, 1400, 1500, 9000]))
+    return {'self': out, 'start_data_length': sdl, 'start_size': ss}
+
+
+def _gen_records_from(g):
+    out = _fresh_or_partial(g)
+    recs = out.additionals if g.rng.random() < 0.5 else out.authorities
+    return {'self': out, 'records': recs, 'offset': g.rng.randint(0, 2)}
+
+
+def _gen_packets(g):
+    out = _mk_out(g, big=g.rng.random() < 0.3)
+    G_ = []
+
+    def ghost(kw, res):
+        o = kw['self']
+        qo = ao = no = do = 0
+        n = len(o.packets_data)
+        for k, pkt in enumerate(o.packets_data):
+            u16 = lambda i: (pkt[i] << 8) | pkt[i + 1]
+            q, a, ns, ar = u16(4), u16(6), u16(8), u16(10)
+            more = 1 if k + 1 < n else (1 if (qo + q < len(o.questions) or ao + a < len(o.answers) or no + ns < len(o.authorities)
+                                             or do + ar < len(o.additionals)) else 0)
+            G_.append((qo, q, ao, a, no, ns, do, ar, len(pkt), u16(2), more, u16(0)))
+            qo, ao, no, do = qo + q, ao + a, no + ns, do + ar
+        return {}
+    return {'self': out, '__env__': {'G': G_}, '__ghost_out__': ghost}
